@@ -10,6 +10,8 @@ def run(chk):
     jobs = [dict(prop='C07', corpus=True, docs=['corpus'])]
     docs = dict(mutworker.GRID_DOCS, **mutworker.C07_DOCS)
     for name, text in docs.items():
+        if name == 'verq':
+            continue        # concrete corpus only: the version regex over a long symbolic suffix exceeds the matcher's alternative limit
         parts = max(1, len(text) // (16 if quick else 8))
         stride = 2 if quick else 1
         for ph in range(parts):
